@@ -186,8 +186,12 @@ def arrangeVerdict (t : String) (impl : List String) : String :=
             let sameMaps := match pm, tm with
               | some a, some b => (a.drop 2).toString == (b.drop 2).toString
               | _, _ => false
-            if sameMaps then "bad:order:" ++ ((ord.getD "ord=?").drop 4).toString
-            else "bad:maps-differ:" ++ t
+            if sameMaps then "bad:order:" ++ ((ord.getD "ord=diff:?").drop 9).toString
+            else
+              let composite := match tm with
+                | some b => (b.splitOn "=o{").length > 1 || (b.splitOn "=l[").length > 1
+                | none => false
+              "bad:maps-differ:" ++ t ++ (if composite then ":composite-arg" else ":other")
           else go rest pm tm ord
       go (impl.drop 1) none none none
     else if st.startsWith "st=ok/" then "bad:rearranged-rejected:" ++ t ++ ":" ++ (st.drop 6).toString
